@@ -75,7 +75,7 @@ def run_one(rng, i):
             odb = cls(FS, os.path.join(tmp, "odb"), state=state) if state else cls(FS, os.path.join(tmp, "odb"))
             odb.cache_types = [link]
             upload = rng.random() < 0.25  # upload staging: every file is streamed to a temp name in the store and added under the digest of the stream
-            staging, meta, obj = build(odb, src + (os.sep if trailing else ""), FS, "md5", upload=upload)
+            staging, meta, obj = build(odb, src + ((os.sep * (2 if i % 5 == 4 else 1)) if trailing else ""), FS, "md5", upload=upload)
             if not single_file and rng.random() < 0.35:
                 # other work on the same store between staging and transfer: ANOTHER directory holding copies of some of the
                 # files is staged, then edited or removed.  The first staging must keep referring to the first directory.
@@ -149,7 +149,7 @@ def main():
         failures += run_one(rng, i)
     print(json.dumps({"evaluations": n, "distinct_nontrivial": n, "n_failures": len(failures), "failures": failures[:4],
                       "bound": f"{n} seeded trees: <= 7 files, depth <= 4, duplicates / empty / CRLF / non-ASCII names, single files; 2 store classes x 3 link "
-                               "types x state on/off; source path with/without trailing separator; a quarter staged through the upload path; the store audited (name = digest) after the transfer; in a third of the runs another directory with copies of some files is staged on the same store and then edited/removed before the transfer"}))
+                               "types x state on/off; source path with/without trailing separator(s); a quarter staged through the upload path; the store audited (name = digest) after the transfer; in a third of the runs another directory with copies of some files is staged on the same store and then edited/removed before the transfer"}))
 
 
 if __name__ == "__main__":
